@@ -246,7 +246,7 @@ func run(p Plan) (vk.Outcome, error) {
 			ms := parallel.MapStream[int, int](ctorCtx, src, p.Par, p.Buf, func(ctx context.Context, i int) (int, error) {
 				body(i)
 				if e := fErr[i]; e != nil {
-					return 0, e
+					return fval(i), e // (a value next to an error means nothing)
 				}
 				return fval(i), nil
 			})
